@@ -56,6 +56,16 @@ TARGETS = {
     "elem": ("var a = [{a}];", "a[0] {op} {b}", "a[0]"),
     "accessor": ("var L = []; var o = {{_v: {a}, get p(){{ L.push(\"g\"); return this._v; }}, set p(v){{ L.push(\"s\"); this._v = v; }}}};",
                  "o.p {op} {b}", "[o._v, L.join(\"\")]"),
+    # targets whose object / key sub-expressions have side effects: each is evaluated once, left to right, before the right operand,
+    # and the value is read from and written to that one reference
+    "index-postincrement": ("var a = [{a}, 50, 60]; var i = 0;", "a[i++] {op} {b}", "[a, i]"),
+    "object-from-call": ("var L = []; var o = {{p: {a}}}; function q() {{ L.push(\"q\"); return o; }}", "q().p {op} {b}", "[o.p, L.join(\"\")]"),
+    "key-from-call": ("var L = []; var o = {{p: {a}}}; function k() {{ L.push(\"k\"); return \"p\"; }}", "o[k()] {op} {b}", "[o.p, L.join(\"\")]"),
+    "call-call-rhs": ("var L = []; var o = {{p: {a}}}; function q() {{ L.push(\"q\"); return o; }} function k() {{ L.push(\"k\"); return \"p\"; }}",
+                      "q()[k()] {op} (L.push(\"r\"), {b})", "[o.p, L.join(\"\")]"),
+    "popped-object": ("var st = [{{v: 1}}, {{v: {a}}}]; var top = st[1];", "st.pop().v {op} {b}", "[top.v, st.length, st[0].v]"),
+    "nested-member": ("var o = {{q: {{r: {a}}}}};", "o.q.r {op} {b}", "o.q.r"),
+    "key-concat-counter": ("var n = 0; var o = {{k0: {a}, k1: 70}};", "o[\"k\" + (n++)] {op} {b}", "[o.k0, o.k1, n]"),
 }
 
 
